@@ -487,7 +487,36 @@ def shards(tier, seed):
     return [{'n': 30 if q else 1600, 'steps': 30} for _ in range(16)]
 
 
+def canonical_histories():
+    """complete little family, run in every tier: one Route object (with / without a render argument, with / without a middleware
+    of its own) bound into two applications (each with / without a render factory, with / without a tracer middleware), in both
+    orders, then both embedded into a third - the combinations whose random occurrence the generated histories cannot guarantee"""
+    import itertools
+    out = []
+    for f0, f1, m0, m1, rarg, rmw, order in itertools.product([False, True], [False, True], [0, 2], [0, 3], [False, True], [False, True], [0, 1]):
+        h = [['new_app', 'redirect', False, m0, f0], ['new_app', 'strict', False, m1, f1], ['new_app', 'rewrite', False, 0, True],
+             ['new_route', '/x', None, 'answer', False, rmw, rarg], ['new_route', '/x/', ['GET'], 'answer', False, False, rarg]]
+        first, second = (0, 1) if order == 0 else (1, 0)
+        h += [['add_route', first, 0, None], ['req', first, '/x', 'GET'], ['add_route', second, 0, None], ['add_route', second, 1, 0],
+              ['req', second, '/x', 'GET'], ['req', first, '/x', 'GET'],
+              ['embed', 0, 2, '/p', None, 'early-sub'], ['embed', 1, 2, '/q/', 0, 'tuple'], ['req', 2, '/p/x', 'GET'], ['req', 2, '/q/x', 'GET'],
+              ['add_route', 2, 0, None], ['req', 2, '/x', 'GET']]
+        out.append(h)
+    return out
+
+
 def run_shard(spec, ctx):
+    for h in canonical_histories()[ctx.shard::16]:
+        ctx.case(h)
+        ctx.current = h
+        try:
+            sim = Sim(ctx)
+            for op in h:
+                sim.step(op)
+            sim.finish()
+            ctx.nt(['canonical', h], sample=False)
+        except Exception as e:
+            ctx.classify_exc(e, h, 'history')
     ctx.machine(machine(), spec['n'], spec['steps'], kind='history')
 
 
